@@ -1,8 +1,11 @@
 package main
 
 import (
+	"crypto/tls"
+
 	"encoding/json"
 	"fmt"
+	dsig "github.com/russellhaering/goxmldsig"
 	"strings"
 	"sync"
 
@@ -37,6 +40,11 @@ type c07Case struct {
 	// Both: the EncryptedAssertion carries an inline EncryptedKey (naming the recipient of the
 	// case) and a second, detached EncryptedKey for the same content key that names nobody
 	Both bool `json:"inline_and_detached_key,omitempty"`
+	// Leaf: the tls.Certificate in the SPKeyStore field carries a parsed Leaf - a certificate for the
+	// same key that is valid for ten hours either side - next to Certificate[0] (which is what
+	// the provider publishes and what the recipient check compares against, and may be expired,
+	// empty or garbage as the case says)
+	Leaf bool `json:"tls_leaf_set,omitempty"`
 }
 
 func c07Spec(c c07Case, encrypted bool) idp.ResponseSpec {
@@ -67,11 +75,11 @@ func c07Spec(c c07Case, encrypted bool) idp.ResponseSpec {
 // c07RecipNear are near misses of the SP certificate as the named recipient: valid base64 of
 // bytes that are not the SP certificate (must refuse), and the SP certificate itself in
 // line-wrapped base64 (the same certificate).
-var c07RecipNear = []string{"KS~caseswap", "KS~firstletter", "KS~truncated", "KS~trailing", "KS~bitflip", "KS~wrapped", "KX~wrapped"}
+var c07RecipNear = []string{"KS~caseswap", "KS~firstletter", "KS~truncated", "KS~trailing", "KS~bitflip", "KS~wrapped", "KX~wrapped", "KS~crlf"}
 
 func c07RecipForeign(recip string) bool {
 	switch recip {
-	case "", "KS", "KS~wrapped":
+	case "", "KS", "KS~wrapped", "KS~crlf":
 		return false
 	}
 	return true
@@ -96,13 +104,20 @@ func c07ExecOn(c c07Case, live *saml2.SAMLServiceProvider) (keys []string, detai
 	if c.Chain {
 		sp.SPKeyStore = world.TLSKeyStoreChain("KS", "K2")
 	}
+	if c.Leaf {
+		if ks, ok := sp.SPKeyStore.(dsig.TLSCertKeyStore); ok {
+			tc := tls.Certificate(ks)
+			tc.Leaf = world.CertWindow("KS", world.T0.Add(-10*time.Hour), world.T0.Add(10*time.Hour))
+			sp.SPKeyStore = dsig.TLSCertKeyStore(tc)
+		}
+	}
 	if live != nil {
 		// only what differs from the previous call is touched: the key store is replaced only when
 		// its certificate state changes (replacing it through the setter on every call would also
 		// drop whatever the instance remembers about its key, and hide it)
 		live.Clock = sp.Clock
 		live.ValidateEncryptionCert = sp.ValidateEncryptionCert
-		state := fmt.Sprintf("%v/%v/%s/%v", c.Setter, c.Custom, c.CertState, c.Chain)
+		state := fmt.Sprintf("%v/%v/%s/%v/%v", c.Setter, c.Custom, c.CertState, c.Chain, c.Leaf)
 		if prev, seen := c07LiveState.Load(live); !seen || prev.(string) != state {
 			c07LiveState.Store(live, state)
 			if c.Setter {
@@ -288,7 +303,7 @@ func c07Replay(raw json.RawMessage) ([]string, string) {
 }
 
 func c07Run(r *mc.Run) {
-	r.Rule = "Part A: the attacker BFS and tree enumeration of C01 (encrypt operator over 8 algorithm/recipient variants at every assertion; X(G)/X(E) tree labels), judged by the pool and direct-child invariants. Part B: full product placement(2) x ValidateEncryptionCert(2) x clock position(11) x SP certificate state(3) x recipient certificate(4) x data algorithm(5) x EncryptedKey placement(2: inline, detached) x SP key API(4: SPKeyStore field as TLS, as TLS with a two-certificate chain whose second certificate outlives the SP's, or as a custom key store type; SetSPKeyStore); an inline EncryptedKey naming each kind of recipient beside a detached EncryptedKey that names nobody; near misses of the SP certificate as named recipient (letter case of the base64 text, truncated, extended, one bit changed: refused; line-wrapped: the same certificate); plus Responses with two assertions encrypted under one session key, full product signing placement(2) x per assertion (EncryptedKey placement(2) x recipient certificate(3: none, the SP's, a foreign one)) x key API(2): refused iff either names a foreign certificate, else equal to the plaintext twin. non-trivial = decryption was attempted (an EncryptedAssertion reached the decrypt step) or the state was accepted; distinct = distinct (input, configuration)"
+	r.Rule = "Part A: the attacker BFS and tree enumeration of C01 (encrypt operator over 8 algorithm/recipient variants at every assertion; X(G)/X(E) tree labels), judged by the pool and direct-child invariants. Part B: full product placement(2) x ValidateEncryptionCert(2) x clock position(11) x SP certificate state(3) x recipient certificate(4) x data algorithm(5) x EncryptedKey placement(2: inline, detached) x SP key API(4: SPKeyStore field as TLS, as TLS with a two-certificate chain whose second certificate outlives the SP's, as TLS with a parsed Leaf that is valid whatever Certificate[0] is, or as a custom key store type; SetSPKeyStore); an inline EncryptedKey naming each kind of recipient beside a detached EncryptedKey that names nobody; near misses of the SP certificate as named recipient (letter case of the base64 text, truncated, extended, one bit changed: refused; line-wrapped: the same certificate); plus Responses with two assertions encrypted under one session key, full product signing placement(2) x per assertion (EncryptedKey placement(2) x recipient certificate(3: none, the SP's, a foreign one)) x key API(2): refused iff either names a foreign certificate, else equal to the plaintext twin. non-trivial = decryption was attempted (an EncryptedAssertion reached the decrypt step) or the state was accepted; distinct = distinct (input, configuration)"
 	r.Assume("RSA/ECDSA unforgeable", "the harness's own XML-Enc encryptor/decryptor (idp/enc.go)")
 	var cases []c07Case
 	n, _ := mc.Enumerate(-1, r.Expired, func(ch *mc.Chooser) {
@@ -307,6 +322,11 @@ func c07Run(r *mc.Run) {
 		cases = append(cases, c)
 		if !c.Setter && !c.Custom && c.CertState == "" {
 			c.Chain = true
+			cases = append(cases, c)
+			c.Chain = false
+		}
+		if !c.Setter && !c.Custom && c.DataAlg < 2 {
+			c.Leaf = true
 			cases = append(cases, c)
 		}
 	})
@@ -371,7 +391,7 @@ func c07Run(r *mc.Run) {
 	groups := map[string][]c07Case{}
 	var order []string
 	for _, c := range cases {
-		k := fmt.Sprintf("%s/%s/%d/%v/%v/%v/%v/%v", c.Placement, c.Recip, c.DataAlg, c.Detached, c.Setter, c.Custom, c.Chain, c.Both)
+		k := fmt.Sprintf("%s/%s/%d/%v/%v/%v/%v/%v/%v", c.Placement, c.Recip, c.DataAlg, c.Detached, c.Setter, c.Custom, c.Chain, c.Both, c.Leaf)
 		if _, ok := groups[k]; !ok {
 			order = append(order, k)
 		}
